@@ -2,6 +2,7 @@ package main
 
 import (
 	"fmt"
+	"sort"
 	"strconv"
 
 	"github.com/trajectoryjp/spatial_id_go/v4/common"
@@ -94,7 +95,9 @@ func registerC19Ops() {
 		}
 	}
 	add("points_to_ext", []string{"shape.GetExtendedSpatialIdsOnPoints", "common/object.Point.Lon", "common/object.Point.Lat", "common/object.Point.Alt"}, genPts("points_to_ext", false),
-		func(c *Call, a *Args) Result { return strs(shape.GetExtendedSpatialIdsOnPoints(a.Pts, i64(c, 0), i64(c, 1))) })
+		func(c *Call, a *Args) Result {
+			return strs(shape.GetExtendedSpatialIdsOnPoints(a.Pts, i64(c, 0), i64(c, 1)))
+		})
 	add("points_to_sp", []string{"shape.GetSpatialIdsOnPoints"}, genPts("points_to_sp", true),
 		func(c *Call, a *Args) Result { return strs(shape.GetSpatialIdsOnPoints(a.Pts, i64(c, 0))) })
 	add("ext_to_points", []string{"shape.GetPointOnExtendedSpatialId"},
@@ -284,8 +287,16 @@ func registerC19Ops() {
 			mn, e2 := common.Min(c.Ints)
 			out = append(out, fmt.Sprint(mx, mn, errStr(e1), errStr(e2), common.AlmostEqual(f64(c, 0), f64(c, 0)+f64(c, 1)*1e-9, 1e-9), common.DegreeToRadian(f64(c, 0)), common.RadianToDegree(f64(c, 1))))
 			out = append(out, strconv.Itoa(len(common.Union(a.IDs, a.IDs2))), strconv.Itoa(len(common.Unique(a.IDs))))
-			out = append(out, common.Difference(a.IDs, a.IDs2)...)
-			out = append(out, common.Intersect(a.IDs, a.IDs2)...)
+			// Difference and Intersect are set operations (差集合, 積集合): compared as sets - an
+			// implementation that builds them from a map returns them in map order, which varies
+			// from call to call in production too
+			df := append([]string(nil), common.Difference(a.IDs, a.IDs2)...)
+			is := append([]string(nil), common.Intersect(a.IDs, a.IDs2)...)
+			sort.Strings(df)
+			sort.Strings(is)
+			out = append(out, df...)
+			out = append(out, "|")
+			out = append(out, is...)
 			out = append(out, fmt.Sprint(common.Include(a.IDs, first(a.IDs2)), common.CalculateArithmeticShift(i64(c, 0), i64(c, 1))))
 			n, k := i64(c, 2), i64(c, 3)
 			if k > n {
